@@ -271,9 +271,26 @@ def node_run(arg):
         if vt["t"] > 900.0 or vt["n"] > 200000:
             raise SimHang()
 
+    skew = float(step.get("clock", 0.0))    # this lifetime's wall clock is off by `skew` seconds
+
     time.sleep = vsleep
-    time.time = lambda: real_time() + vt["t"]
+    time.time = lambda: real_time() + vt["t"] + skew
     time.monotonic = lambda: real_mono() + vt["t"]
+    if skew:
+        import datetime as _dt
+
+        _rd, _rdt = _dt.date, _dt.datetime
+
+        class _SkewDT(_rdt):
+            @classmethod
+            def now(cls, tz=None):
+                return cls.fromtimestamp(real_time() + vt["t"] + skew, tz)
+
+            @classmethod
+            def utcnow(cls):
+                return cls.utcfromtimestamp(real_time() + vt["t"] + skew)
+
+        _dt.datetime = _SkewDT
     ext_idx = step.get("ext_alt", job["ext"])
     if step.get("ext_perm") is not None and isinstance(ext_idx, list):
         # the same extractors in another order (a re-sorted copy of the list)
@@ -282,6 +299,10 @@ def node_run(arg):
     exts = tagged_extractors(ext_idx, flag_toggle=tuple(step.get("flag_toggle", ())))
     out = {"status": "ok"}
     try:
+        if step.get("pre_instance"):
+            # a process rarely owns just one tokenizer: use a small one first
+            small = HyperscanTokenizer(extractors=exts[: int(step["pre_instance"])], cache_dir=None)
+            list(small.extract_tokens(job["texts"][0][:2000]))
         tok = HyperscanTokenizer(extractors=exts, cache_dir=D)
         tok.hyperscan_db
         out["texts"] = _eval_texts(tok, job["texts"], bool(step.get("full")))
@@ -423,6 +444,14 @@ def apply_fault(D, f, target_name=None):
         return eff
     if not files:
         return eff
+    if kind == "mtime" and f.get("target") == "all":
+        for q in files:
+            st_ = os.stat(q)
+            t_new = st_.st_mtime + float(f.get("delta", 0))
+            os.utime(q, (t_new, t_new))
+        eff["effective"] = True
+        eff["delta"] = f.get("delta")
+        return eff
     t = int(f.get("target", 0))     # 0 = largest file (the database), 1 = next (a sidecar, lock, temp ...)
     if t >= len(files):
         return eff
@@ -468,6 +497,15 @@ def apply_fault(D, f, target_name=None):
     elif kind == "append":
         rng = random.Random(f.get("seed", 0))
         new = data + bytes(rng.getrandbits(8) for _ in range(f.get("len", 16)))
+    elif kind == "mtime":
+        # the file's timestamps are moved (restored backup, clock that was wrong
+        # when it was written): contents unchanged
+        st_ = os.stat(p)
+        t_new = st_.st_mtime + float(f.get("delta", 0))
+        os.utime(p, (t_new, t_new))
+        eff["effective"] = True
+        eff["delta"] = f.get("delta")
+        return eff
     elif kind == "byte":
         k = _resolve(f["off"], n)
         if n:
@@ -749,7 +787,8 @@ def _run_pair(job, step, si, D, Bd, out):
     for who in (0, 1):
         st_r, st_w = os.pipe()
         go_r, go_w = os.pipe()
-        pid, rfd = spawn(node_run, (job, dict(step.get("life", {}), **{}), D, (st_w, go_r)))
+        lives = step.get("lives") or [step.get("life", {}), step.get("life", {})]
+        pid, rfd = spawn(node_run, (job, dict(lives[who]), D, (st_w, go_r)))
         os.close(st_w)
         os.close(go_r)
         nodes.append({"pid": pid, "rfd": rfd, "st": st_r, "go": go_w, "state": "running",
@@ -832,7 +871,8 @@ def _run_pair(job, step, si, D, Bd, out):
         if inconclusive:
             continue
         st["lifetimes"] += 1
-        _judge_life(job, step.get("life", {}), si, kind, res, Bd, out, None, "concurrent", who=nd["who"])
+        lives = step.get("lives") or [step.get("life", {}), step.get("life", {})]
+        _judge_life(job, lives[nd["who"]], si, kind, res, Bd, out, None, "concurrent", who=nd["who"])
     if inconclusive:
         st["pair_inconclusive"] += 1
 
@@ -873,6 +913,11 @@ class RunGen:
     def ext_list(self, g, full=False):
         if full:
             return "all", list(self.matching)
+        if g.random() < 0.04:
+            # degenerate lists: a single extractor
+            one = self.matching[g.randrange(len(self.matching))]
+            idx = [one["x"][0]] if g.random() < 0.7 else [self.special[g.randrange(len(self.special))]]
+            return idx, [f for f in [one] if set(f["x"]) <= set(idx)]
         n_frag = g.choice([3, 6, 12, 25, 50, 100])
         frags = [self.matching[g.randrange(len(self.matching))] for _ in range(n_frag)]
         if self.mbfrags:
@@ -994,6 +1039,9 @@ class RunGen:
         return f
 
     def _fault(self, g):
+        if g.random() < 0.06:
+            return {"k": "fault", "f": "mtime",
+                    "delta": g.choice([-86400.0 * 400, 86400.0 * 400, -3600.0, 3600.0, -86400.0 * 7300])}
         x = g.random()
         if x < 0.22:
             at = g.choice(LEN_CLASSES) if g.random() < 0.7 else ["frac", round(g.random(), 4)]
@@ -1035,6 +1083,13 @@ class RunGen:
         texts = self.texts(g, frags, classes, g.randrange(4, 12) if not full else 40)
         fg = st.get("faults")
         steps = []
+        if not full and g.random() < 0.03:
+            # differential only, on one long document: offsets beyond 65535 bytes,
+            # thousands of matches (no lifetimes: they would re-tokenise it each time)
+            long = (" ".join(texts) + "\n") * 400
+            classes["long-document"] += 1
+            return {"seed": run_seed, "kind": "swarm", "ext": ext, "chunk": 65536,
+                    "texts": [long[: g.choice([70000, 100000])]], "steps": [], "classes": dict(classes)}
         n_life = fg.randrange(3, 9) if not full else fg.randrange(2, 4)
         if fg.random() < 0.2:
             steps.append(self.fault(fg))      # pre-damaged / absent directory
@@ -1067,8 +1122,17 @@ class RunGen:
                 or steps[-1].get("ext_perm") is not None)
             if foreign_prev and "crash" not in life and fg.random() < 0.5 and len(life) == 1:
                 life["crash"] = self.crash_plan(fg)
+            if fg.random() < 0.2:
+                life["pre_instance"] = fg.choice([1, 2, 5])
+            if fg.random() < 0.15:
+                life["clock"] = fg.choice([3600.0, -3600.0, 86400.0 * 400, -86400.0 * 400,
+                                           86400.0 * 3650, -86400.0 * 3650])
             if 0.50 <= x < 0.50 + p_pair and not full:
-                steps.append({"k": "pair", "sched_seed": fg.randrange(1 << 30), "life": {}})
+                pair = {"k": "pair", "sched_seed": fg.randrange(1 << 30), "life": {}}
+                if isinstance(ext, list) and len(ext) > 8 and fg.random() < 0.4:
+                    # the two processes use different extractor lists
+                    pair["lives"] = [{}, {"ext_alt": sorted(set(ext[: len(ext) // 2]) | set(self.special))}]
+                steps.append(pair)
             else:
                 steps.append(life)
             for _ in range(fg.choice([0, 1, 1, 1, 2])):
@@ -1225,6 +1289,48 @@ class RunGen:
                              "texts": texts, "classes": {},
                              "steps": pre + [{"k": "pair", "sched_seed": seeds.h64(root, "pairseed", nm, si) % (1 << 30), "life": {}},
                                              {"k": "life"}, {"k": "life"}]})
+        # clock skew and jumps between lifetimes, stale or future file timestamps
+        for ci, (c1, c2, dm) in enumerate([(0, 86400.0 * 800, None), (86400.0 * 800, 0, None), (0, -86400.0 * 800, None),
+                                           (-86400.0 * 800, 0, None), (0, 0, 86400.0 * 800), (0, 0, -86400.0 * 8000),
+                                           (3600.0, -3600.0, None), (0, 86400.0 * 800, -86400.0 * 8000)]):
+            steps = [{"k": "life", "clock": c1}]
+            if dm is not None:
+                steps.append({"k": "fault", "f": "mtime", "delta": dm})
+            steps += [{"k": "life", "clock": c2}, {"k": "life", "clock": c2, "crash": {"op": 5, "when": "after"}},
+                      {"k": "life", "clock": c1}, {"k": "life"}]
+            jobs.append({"seed": seeds.h64(root, "grid-clock", ci), "kind": "grid", "cell": f"clock-{ci}",
+                         "ext": ext, "chunk": 4096, "texts": texts, "classes": {}, "steps": steps})
+        # an unusable cache whose timestamp disagrees with the clock
+        dmg = [{"f": "truncate", "at": ["frac", 0.5]}, {"f": "header", "field": "version", "value": "00040405"},
+               {"f": "zeros"}, {"f": "garbage", "len": 4096, "seed": 9}, {"f": "truncate", "at": ["abs", 0]}]
+        for di, d in enumerate(dmg):
+            for ti, (mt, clk) in enumerate([(86400.0 * 800, 0), (-86400.0 * 8000, 0), (0, -86400.0 * 800),
+                                            (0, 86400.0 * 800), (3.0, 0), (0, -3.0)]):
+                steps = [{"k": "life"}, dict(d, k="fault")]
+                if mt:
+                    steps.append({"k": "fault", "f": "mtime", "delta": mt, "target": "all"})
+                steps += [{"k": "life", "clock": clk}, {"k": "life", "clock": clk}, {"k": "life"}]
+                jobs.append({"seed": seeds.h64(root, "grid-dmgtime", di, ti), "kind": "grid",
+                             "cell": f"damage{di}-time{ti}", "ext": ext, "chunk": 65536, "texts": texts,
+                             "classes": {}, "steps": steps})
+        # two processes with *different* lists starting together in one directory
+        for si in range(12):
+            jobs.append({"seed": seeds.h64(root, "grid-pair2", si), "kind": "grid", "cell": f"pair-two-lists-{si}",
+                         "ext": ext, "chunk": [512, 4096, 65536][si % 3], "texts": texts, "classes": {},
+                         "steps": [{"k": "pair", "sched_seed": seeds.h64(root, "pair2seed", si) % (1 << 30),
+                                    "lives": [{}, {"ext_alt": half}] if si % 2 else [{"ext_alt": half}, {}]},
+                                   {"k": "life"}, {"k": "life", "ext_alt": half}, {"k": "life", "pre_instance": 1}]})
+        # an old leftover of another list, then two processes starting together
+        for si in range(10):
+            for nm, old in (("old-alt", -86400.0 * 400), ("fresh-alt", 0.0), ("future-alt", 86400.0 * 400)):
+                steps = [{"k": "life", "ext_alt": half}]
+                if old:
+                    steps.append({"k": "fault", "f": "mtime", "delta": old, "target": "all"})
+                steps += [{"k": "pair", "sched_seed": seeds.h64(root, "oldpair", nm, si) % (1 << 30), "life": {}},
+                          {"k": "life"}, {"k": "life", "ext_alt": half}, {"k": "life"}]
+                jobs.append({"seed": seeds.h64(root, "grid-oldpair", nm, si), "kind": "grid",
+                             "cell": f"pair-{nm}-{si}", "ext": ext, "chunk": [512, 4096, 65536][si % 3],
+                             "texts": texts, "classes": {}, "steps": steps})
         for n in (0, 1, 32, 4096, 100000):
             jobs.append({"seed": seeds.h64(root, "grid-enospc", n), "kind": "grid",
                          "cell": f"enospc-{n}", "ext": ext, "chunk": 4096, "texts": texts, "classes": {},
@@ -1472,7 +1578,9 @@ class Checker:
                                     "kernel filesystem under /dev/shm", "process fork/exit"],
                            "simulated": ["instant of process death", "bytes of a write that reached the file",
                                          "effects of power loss on un-synced data", "disk full",
-                                         "interleaving of two starting processes", "calendar date"],
+                                         "interleaving of two starting processes", "calendar date",
+                                         "wall-clock skew/jumps between lifetimes and file timestamps",
+                                         "time.sleep (virtual)"],
                            "stubbed": []},
             "harness_problems": len(self.harness),
             "known_findings_printed": self.known_printed,
